@@ -1,6 +1,7 @@
 package vm
 
 import (
+	"context"
 	"encoding/binary"
 	"slices"
 
@@ -437,11 +438,20 @@ func NextBuiltin(vm *Thread, val value.Value) (result, err value.Value) {
 		return LeftOpenRangeIteratorNext(vm, v)
 	case *value.RightOpenRangeIterator:
 		return RightOpenRangeIteratorNext(vm, v)
+	case contextIterator:
+		// blocking iterators (channels) can be interrupted by aborting the thread
+		return v.NextValueCtx(vm.Aborter.Context())
 	case value.NativeIterator:
 		return v.NextValue()
 	default:
 		return value.Undefined, value.Undefined
 	}
+}
+
+// Represents a native iterator that blocks
+// and can be interrupted with a context.
+type contextIterator interface {
+	NextValueCtx(ctx context.Context) (value.Value, value.Value)
 }
 
 func SubscriptBuiltin(vm *Thread, collection, key value.Value) (result, err value.Value) {
